@@ -455,3 +455,75 @@ Proof.
   - intros _ _. unfold fsub. cbn. now destruct s.
   - intros _ _. unfold fsub, SFsub. rewrite Z.sub_diag. reflexivity.
 Qed.
+
+(** * Order through the embedding [rk] *)
+Lemma flt_true_iff : forall a b, num a -> num b -> (flt a b = true <-> rk a < rk b).
+Proof. intros a b Ha Hb. rewrite (flt_rk a b Ha Hb). case Rlt_bool_spec; intros; split; intros; try easy; lra. Qed.
+
+Lemma flt_false_iff : forall a b, num a -> num b -> (flt a b = false <-> rk b <= rk a).
+Proof. intros a b Ha Hb. rewrite (flt_rk a b Ha Hb). case Rlt_bool_spec; intros; split; intros; try easy; lra. Qed.
+
+
+(** NewSampler's clamps *)
+Lemma clamp01_unit : forall p, num p -> num (clamp01 p) /\ 0 <= rk (clamp01 p) <= 1.
+Proof.
+  intros p Hp. unfold clamp01.
+  set (p1 := if flt p fzero then fzero else p).
+  assert (H1 : num p1 /\ 0 <= rk p1).
+  { unfold p1. destruct (flt p fzero) eqn:F.
+    - split; [apply num_fzero|rewrite rk_fzero; lra].
+    - apply flt_false_iff in F; [|easy|apply num_fzero]. rewrite rk_fzero in F. now split. }
+  destruct H1 as [N1 P1]. rewrite (fle_rk fone p1 num_fone N1), rk_fone.
+  case Rle_bool_spec; intros X.
+  - split; [apply num_fone|rewrite rk_fone; lra].
+  - split; [easy|lra].
+Qed.
+
+Lemma clamp_temp_pos : forall t, num t -> is_inf t = false ->
+  let t' := if flt t fzero then fzero else t in
+  num t' /\ is_inf t' = false /\ (feq t' fzero = false -> 0 < rk t').
+Proof.
+  intros t Ht Ft. cbn zeta. destruct (flt t fzero) eqn:F.
+  - split; [apply num_fzero|]. split; [easy|]. intros X. now cbv in X.
+  - apply flt_false_iff in F; [|easy|apply num_fzero]. rewrite rk_fzero in F.
+    split; [easy|]. split; [easy|]. rewrite (feq_rk t fzero Ht num_fzero), rk_fzero.
+    case Req_bool_spec; intros X Y; [easy|lra].
+Qed.
+
+(** every bit pattern decodes to a valid binary32 datum *)
+Local Open Scope Z_scope.
+Lemma f32_of_bits_valid : forall b, valid (f32_of_bits b) = true.
+Proof.
+  intros b0. unfold f32_of_bits.
+  set (b := b0 mod 4294967296).
+  set (e := (b / 8388608) mod 256). set (m := b mod 8388608).
+  assert (He : 0 <= e < 256) by (apply Z.mod_pos_bound; lia).
+  assert (Hm : 0 <= m < 8388608) by (apply Z.mod_pos_bound; lia).
+  destruct (e =? 255) eqn:E1. { now destruct (m =? 0). }
+  apply Z.eqb_neq in E1.
+  destruct (e =? 0) eqn:E0.
+  - destruct m as [|p|p] eqn:Em; try easy.
+    unfold valid, valid_binary, bounded, canonical_mantissa.
+    rewrite Zpos_digits2_pos.
+    assert (D : Zdigits radix2 (Z.pos p) <= 23) by (apply Zdigits_le_Zpower; cbn; lia).
+    assert (D0 : 0 <= Zdigits radix2 (Z.pos p)) by apply Zdigits_ge_0.
+    unfold SpecFloat.fexp, SpecFloat.emin, F32.prec, F32.emax.
+    apply andb_true_intro. split; [apply Zeq_bool_true|apply Zle_bool_true]; lia.
+  - apply Z.eqb_neq in E0.
+    destruct (m + 8388608) as [|p|p] eqn:Em; try lia.
+    unfold valid, valid_binary, bounded, canonical_mantissa.
+    rewrite Zpos_digits2_pos.
+    assert (D : Zdigits radix2 (Z.pos p) = 24) by (apply Zdigits_unique; cbn; lia).
+    rewrite D. unfold SpecFloat.fexp, SpecFloat.emin, F32.prec, F32.emax.
+    apply andb_true_intro. split; [apply Zeq_bool_true|apply Zle_bool_true]; lia.
+Qed.
+
+(** temperature "zero" after NewSampler's clamp: exactly the non-positive raw temperatures *)
+Lemma temp_zero_iff : forall t, num t ->
+  (feq (if flt t fzero then fzero else t) fzero = true <-> (rk t <= 0)%R).
+Proof.
+  intros t Ht. destruct (flt t fzero) eqn:F.
+  - apply flt_true_iff in F; [|easy|apply num_fzero]. rewrite rk_fzero in F. split; [intros _; lra|easy].
+  - apply flt_false_iff in F; [|easy|apply num_fzero]. rewrite rk_fzero in F.
+    rewrite (feq_rk t fzero Ht num_fzero), rk_fzero. case Req_bool_spec; intros X; split; intros Y; try easy; lra.
+Qed.
